@@ -1,0 +1,47 @@
+//go:build verif
+
+package commitgraph
+
+// Contracts for the gvc verifier (/verif). Comment-only; never compiled into
+// a normal build.
+
+// A commit node's topological level and corrected commit date are constants
+// of the node (#gen, #genv2); the two getters return them (trusted: interface
+// contract of CommitNode, implemented by field reads in both node kinds).
+//gvc:ghost CommitNode.gen int
+//gvc:ghost CommitNode.genv2 int
+
+//gvc:func CommitNode.Generation
+//gvc:  trusted
+//gvc:  params c
+//gvc:  ensures result == c.#gen && 0 <= result && result <= 0xffffffffffffffff
+//gvc:end
+
+//gvc:func CommitNode.GenerationV2
+//gvc:  trusted
+//gvc:  params c
+//gvc:  ensures result == c.#genv2 && 0 <= result && result <= 0xffffffffffffffff
+//gvc:end
+
+// generationAndDateOrderComparator drives the explore heap of the topological
+// walker as well as the date-order walkers (property C43: parents after
+// children, agreement of commit-graph-backed and object-backed walks). The
+// heap must hand out the node with the greater generation first, so that no
+// commit is emitted before all commits that can reach it were explored:
+// whenever both nodes are in the graph, a difference in generation decides
+// the order -- the corrected commit date when both nodes have one, the
+// topological level otherwise -- and the commit time only breaks ties.
+// ("In the graph" is spelled as the code spells it: corrected date not
+// MaxUint64 on the left, not MaxInt64 on the right.)
+//gvc:func generationAndDateOrderComparator
+//gvc:  props C43
+//gvc:  theory int
+//gvc:  opt coarse
+//gvc:  opt frame args
+//gvc:  let ingraph = left.#genv2 != 0xffffffffffffffff && right.#genv2 != 0x7fffffffffffffff
+//gvc:  let v1 = left.#genv2 == 0 || right.#genv2 == 0
+//gvc:  ensures level_lo: ingraph && v1 && left.#gen < right.#gen ==> result == 1
+//gvc:  ensures level_hi: ingraph && v1 && left.#gen > right.#gen ==> result == -1
+//gvc:  ensures date_lo: ingraph && !v1 && left.#genv2 < right.#genv2 ==> result == 1
+//gvc:  ensures date_hi: ingraph && !v1 && left.#genv2 > right.#genv2 ==> result == -1
+//gvc:end
